@@ -108,6 +108,9 @@ SPECS['C11'] = dict(
         ch('pool-side', 'harness.c11', 'h_pool_side', 'limiter consulted once per abnormal exit, never for clean/recycle, before the fork; raise prevents the fork; '
            'acceptance resets the count', timeout=(300, 1500)),
         twin('pool-side', 'harness.c11', 'h_pool_side_twin', 'a run in which the budget is exceeded exists'),
+        ch('ack-resets-the-configured-limiter', 'harness.c11', 'h_ack_limiter', 'threaded pool, the Supervisor thread played up to its first sleep as soon as it is started (before the result '
+           'handler exists): the limiter held by the result handler\'s accept path is the configured one (max_restarts, max_restart_freq) and an accepted job resets its count',
+           timeout=(200, 900), nontrivial_witness=True),
         ch('startup-burst', 'harness.c11', 'h_burst', 'Supervisor.body: restart_state(10*processes, 1) for exactly the first ten rounds, then the configured limiter',
            timeout=(200, 900), nontrivial_witness=True),
     ] + parts(ch('restart-bounded-t', 'harness.c11', 'h_restart', 'same, 6 steps, split on the first three ack flags',
@@ -134,6 +137,8 @@ SPECS['C04'] = dict(
         + parts(ch('exit-after-work', 'harness.c04', 'h_after', 'worker exits between jobs with any status (result handled before or '
                    'after): nothing is ever reported lost and the job completes with its real result', timeout=(240, 1500)), 4)
         + parts(twin('exit-after-work', 'harness.c04', 'h_after_twin', 'a run in which the worker exits exists'), 4)
+        + [smt('human-status-total', 'harness.c04', 'v_human_status', 'stub validation: the real common.human_status (replaced by a recorder in the pool world) is total on exit codes 0..255 and '
+               'signals 1..64, named or not, and names the number: the supervisor calls it while reaping and while building the WorkerLostError', kind='validate')]
         + [ch('death-after-close', 'harness.c07', 'h_death_after_close', '"rather than leaving the caller waiting forever" also once the pool is closed: a worker dies in task code '
               'after close(): exactly its job fails with WorkerLostError, the other job keeps its result', timeout=(300, 1500)),
            twin('death-after-close', 'harness.c07', 'h_death_after_close_twin', 'join() returns in some such run')]
@@ -222,6 +227,9 @@ SPECS['C05'] = dict(
         + parts(ch('limits-on-a-replacement-worker', 'harness.c05', 'h_replaced', 'a worker of the initial set exits (cleanly / killed) and is replaced before the job is '
                    'taken by the replacement: soft signal, TERM/KILL and TimeLimitExceeded reach the process that runs the job now', timeout=(300, 1500)), 8)
         + parts(twin('limits-on-a-replacement-worker', 'harness.c05', 'h_replaced_twin', 'a run reaching an expiry branch on the replacement exists'), 8)
+        + parts(ch('hard-limit-after-close', 'harness.c06b', 'h_hard_after_close', 'threaded pool: the limit of a job still running at close() expires during shutdown - the scanner thread '
+                   '(which runs on until terminate()) fails it with TimeLimitExceeded and signals its worker; a job finishing inside its limit keeps its result', timeout=(300, 1500)), 8)
+        + parts(twin('hard-limit-after-close', 'harness.c06b', 'h_hard_after_close_twin', 'a run in which the limit expires during shutdown exists'), 8)
         + [ch('two-jobs-callback-preemption', 'harness.c05b', 'h_two_jobs', 'two jobs past their limit; the timed-out job\'s timeout callback (user code inside the scan) lets the '
               'result handler process the other job\'s pending result: that job keeps its result and its worker is not signalled', timeout=(300, 1500)),
            twin('two-jobs-callback-preemption', 'harness.c05b', 'h_two_jobs_twin', 'the callback fires in some run')]
@@ -439,6 +447,8 @@ SPECS['C12'] = dict(
         twin('depth-limit', 'harness.c12', 'h_depth_twin', 'a truncated copy exists'),
         smt('roundtrip-concrete', 'harness.c12', 'v_roundtrip', 'real exceptions (7 types) x depths incl. beyond the frame limit and 3000 frames: depth bounded, '
             'format_exception accepts the record, type/args/text/traceback unchanged by 3 pickle round trips; __reduce__ shape of the stand-ins', kind='validate'),
+        ch('worker-exception-with-constructor-arguments', 'harness.c03', 'h_ctor_exception', 'a task raising an exception whose class needs constructor arguments beyond .args: the '
+           'record the worker sends can be unpickled by the parent (every worker message is pickled and unpickled for real)', timeout=(200, 900), nontrivial_witness=True),
         ch('worker-unpicklable', 'harness.c03', 'h_unpicklable', 'unserialisable result at any set of positions: exactly one READY(False, MaybeEncodingError) '
            'for that job, the worker goes on', timeout=(200, 900), nontrivial_witness=True),
     ] + parts(ch('worker-exceptions', 'harness.c03', 'h_protocol', 'Exception / BaseException raised by a task is reported as that job\'s failure with '
@@ -473,6 +483,9 @@ SPECS['C19'] = dict(
         ch('forkserver-poll', 'harness.c19', 'h_forkserver_poll', 'real popen_forkserver.Popen.poll + forkserver.read_unsigned over a scripted sentinel pipe: None (and no read) until the '
            'child has ended; the code the child wrote, however the 8 bytes are split; a non-zero status when the child was killed before writing all of it (EOF, '
            'partial data, read error); stable afterwards', timeout=(200, 900), nontrivial_witness=True),
+        ch('spawn-launch', 'harness.c19', 'h_spawn_launch', 'real popen_spawn_posix.Popen._launch over a fake kernel (fd table, pipes, inherited handles): the sentinel\'s only write end '
+           'lives in the child (ready exactly when the child is gone), the child inherits its data pipe, the tracker fd and the handles asked for, the parent closes the rest and writes '
+           'the preparation data', timeout=(120, 600), nontrivial_witness=True),
         ch('bootstrap', 'harness.c19', 'h_bootstrap', 'through the child branch of the real Popen._launch: return -> 0, exception -> 1, sys.exit(n) -> n, also when flushing stdout/stderr at exit fails (unwritable, detached, unimplemented, closed); n survives kernel + decoder for 0..255', timeout=(300, 1500), nontrivial_witness=True),
     ],
 )
@@ -538,6 +551,9 @@ SPECS['C17'] = dict(
            'empties the child\'s ownership record (count 0, not mine) whatever the parent held at the fork: real SemLock.__init__ and C semaphore, '
            'the child played by running the newly registered hooks', timeout=(120, 600)),
         twin('fork-ownership', 'harness.c17', 'h_fork_twin', 'a run in which the parent holds the primitive at the fork exists'),
+        ch('transfer-to-a-spawned-child', 'harness.c17', 'h_transfer', 'Lock/RLock/Semaphore/BoundedSemaphore/Condition/Event rebuilt from their pickled state (as a spawned child does): every '
+           'part is the same kernel semaphore in the same role with the same kind and bound, and can be acquired/released through the copy', timeout=(120, 600)),
+        twin('transfer-to-a-spawned-child', 'harness.c17', 'h_transfer_twin', 'a rebuilt primitive exists'),
         ch('wrappers', 'harness.c17', 'h_wrappers', 'Lock/RLock/Semaphore/BoundedSemaphore pass (kind, value, maxvalue) to SemLock as documented', timeout=(120, 600), nontrivial_witness=True),
     ],
 )
@@ -551,7 +567,7 @@ SPECS['C02'] = dict(
     functions=['billiard.pool.Pool._map_async', 'Pool._get_tasks', 'mapstar', 'starmapstar', 'MapResult.__init__/_set/_ack', 'IMapIterator._set/_set_length/next',
                'IMapUnorderedIterator._set', 'TaskHandler.body (set_length)', 'ApplyResult.get', 'billiard.einfo.ExceptionInfo/ExceptionWithTraceback/rebuild_exc'],
     bounds={'quick': 'n <= 3 items, chunk size 0(None)..2, pool of 1..2, at most one raising position, 3 symbolic scheduling events then run to completion',
-            'thorough': 'n <= 5, chunk <= 6, any subset of raising positions, 5 events'},
+            'thorough': 'n <= 4, chunk <= 4, any subset of raising positions, 5 events'},
     outside=['"arguments and results unchanged up to pickling" for arbitrary objects (pickle is C; payloads are tagged tuples)', 'imap/imap_unordered with chunksize > 1 '
              'and a raising item (one failing item fails its whole chunk and ends the flattening generator; non-raising inputs are covered)', 'pool sizes above 2'],
     assumptions=POOL_ASSUME + ['result payloads cross the fake pipe through pickle.loads(pickle.dumps(.))'],
@@ -559,8 +575,8 @@ SPECS['C02'] = dict(
     obligations=(
         [smt('L-chunking', 'harness.c02', 'l_chunking', 'slices tile [0,n); slice count n//c+bool(n%c); defaulted chunk size >= 1')]
         + tiered(lambda: ch('sequential', 'harness.c02', 'h_seq', 'result == sequential map (values, order / multiset, exception type+args with remote '
-                            'traceback, imap error at the failing position then the rest)', timeout=(400, 1800)), 20, 30)
-        + tiered(lambda: twin('sequential', 'harness.c02', 'h_seq_twin', 'the job runs to completion'), 20, 30)
+                            'traceback, imap error at the failing position then the rest)', timeout=(400, 1800)), 20, 25)
+        + tiered(lambda: twin('sequential', 'harness.c02', 'h_seq_twin', 'the job runs to completion'), 20, 25)
         + tiered(lambda: ch('blocking-consumer', 'harness.c02b', 'h_blocking', 'imap / imap_unordered consumer blocked in next() (no timeout) while results arrive in any '
                             'order: items in input order / same multiset, errors at their position, never a TimeoutError', timeout=(400, 1800), nontrivial_witness=True), 8, 12)
         + [ch('worker-task-raises-SystemExit', 'harness.c03', 'h_sysexit', 'worker side of "if the function raises ... re-raise that exception (same type and arguments)" for '
@@ -616,8 +632,10 @@ SPECS['C08'] = dict(
         [smt('instrumentation-valid', 'harness.c03', 'v_instrumentation', 'instrumented workloop == original on concrete scripts', kind='validate')]
         + _term
         + parts(ch('terminate', 'harness.c07', 'h_terminate', 'terminate() returns within the stub budgets, no worker alive afterwards, results delivered '
-                   'before the call unchanged, queues closed, second terminate() and the finalizer are no-ops', timeout=(400, 1800)), 8)
-        + parts(twin('terminate', 'harness.c07', 'h_terminate_twin', 'a run terminating busy workers exists'), 8)
+                   'before the call unchanged, queues closed, second terminate() and the finalizer are no-ops; also on a pool one of whose workers is a replacement', timeout=(400, 1800)), 16)
+        + parts(twin('terminate', 'harness.c07', 'h_terminate_twin', 'a run terminating busy workers exists'), 16)
+        + [ch('terminate-signal', 'harness.c07', 'h_terminate_signal', 'real popen_fork.Popen.terminate over a recording os.kill: it sends common.TERM_SIGNAL - the signal the workers hook, '
+              'also when a deployment remapped it (REMAP_SIGTERM) and workers ignore SIGTERM; a worker that is already gone is tolerated', timeout=(120, 600), nontrivial_witness=True)]
         + parts(ch('terminate-job', 'harness.c01', 'h_term', 'terminate_job on a busy worker: Terminated for exactly its job', timeout=(300, 1500)), 6)
         + [ch('after-fork-signal-order', 'harness.c03', 'h_after_fork', 'real Worker.after_fork with a recording signal table: the termination handlers (and the soft-limit '
               'handler) are installed after the user initializer ran, so they win; parent pipe ends closed', timeout=(300, 1500), nontrivial_witness=True)]
